@@ -21,6 +21,21 @@ CHECKS = {
         text="For value lists of length 0..4 with every NULL pattern (0..6 in thorough), duplicates and tuples of arity 2-3, in 18 boolean/CASE/comparison/IS contexts, on sqlite/postgresql/mysql, in three delivery modes (literal_binds, bound with expansion, compiled for another list length then re-bound via construct_params(extracted_parameters)), z3 proves the emitted predicate equals OR_i(x = v_i) (resp. its 3VL negation) for every column value incl. NULL, or yields a row; SQLite's empty-set sub-select is executed on sqlite3 for its rows; SQLite disagreements are replayed on sqlite3.",
         note="Trusted: vlib/sqlparse.py grammars, 3VL semantics in vlib/sqlsem.py, z3, sqlite3. PostgreSQL/MySQL: reference grammar only.",
         ref="DESIGN.md §4 C07"),
+    "C09": dict(engine=E1, category="other",
+        technique="symbolic execution of bind/result processor closures obtained via _cached_bind_processor/_cached_result_processor and from concretely compiled statements (CrossHair proxies + z3), path-exhaustive within bounds, concrete replay",
+        text="result(bind(v)) == v, None passes through, and every TypeDecorator level (depth <=3, with_variant, type_coerce, cast, labels, subqueries, CTEs, unions, RETURNING) is applied exactly once and in order, for Boolean, Enum, Interval (epoch arithmetic incl. negative and range-boundary intervals), PickleType, sqlite DATETIME storage formats and the pure-Python engine/_processors_cy.py functions on sqlite/postgresql/mysql/default dialects. Bounded claim; the database is the identity between bind and result.",
+        note="Trusted: CrossHair int/str models, z3, the identity-database stub. Hash lookups and C constructors realise values (bounded enumeration). DBAPIs, float/Decimal precision, JSON, ARRAY, Uuid, LargeBinary with a DBAPI wrapper are outside.",
+        ref="DESIGN.md §4 C09"),
+    "C10": dict(engine=E1, category="other",
+        technique="symbolic execution of the real Result/CursorResult classes and cursor fetch strategies over symbolic operation histories, lazily decided row counts and values (CrossHair proxies + z3), path-exhaustive within bounds, concrete replay",
+        text="Every history (<=2 calls; <=3 for the core configurations in the thorough tier) over fetchone/fetchmany(n)/all/first/one/one_or_none/scalar*/partitions(n)/next/iter/close on IteratorResult, ChunkedIteratorResult, FrozenResult, MergedResult with scalars/mappings/columns/unique/yield_per views, and on CursorResult with the default, buffered-row (symbolic max_row_buffer) and fully buffered strategies over a lazy fake DBAPI cursor, is decided against a plain-list model: rows once, in order, projected, de-duplicated, documented exceptions, buffer size never above max_row_buffer.",
+        note="Trusted: CrossHair int/list models, z3, the list model and fake cursor in props/C10.py. After first()/one()/scalar*() either ResourceClosedError or the empty outcome is accepted; fetchmany() default size without yield_per is only checked as a non-empty prefix.",
+        ref="DESIGN.md §4 C10"),
+    "C12": dict(engine=E1, category="other",
+        technique="symbolic execution of SQLCompiler._deliver_insertmanyvalues_batches and DefaultDialect._deliver_insertmanyvalues_batches on concretely compiled INSERTs (CrossHair proxies + z3) with symbolic batch_size, max_parameters, parameter-set count and RETURNING arrival order; path-exhaustive within bounds; concrete replay",
+        text="For 41 (quick) / 86 (thorough) dialect x statement configurations (qmark, format, numeric, numeric_dollar, named, pyformat; implicit/explicit/composite sentinel, VALUES counter, parameters outside VALUES, DEFAULT VALUES, row-at-a-time downgrade, setinputsizes): the batches partition the parameter sets in order; each batch statement equals an independently rendered reference; every placeholder receives the right value; after the sentinel re-sort row i belongs to parameter set i for every arrival order of every batch.",
+        note="Trusted: CrossHair/z3, the reference renderer and fake server in props/C12.py (one RETURNING row per VALUES row; server keys increase in VALUES order). One local CrossHair shim (list slices with symbolic bounds are copies). Upsert, schema_translate_map, the ORM and real servers are outside.",
+        ref="DESIGN.md §4 C12"),
     "C14": dict(engine=E1, category="other",
         technique="solver-chosen foreign-key graphs (CrossHair + z3, exhaustive over the bounded code space) driving the real MetaData.create_all/drop_all/sorted_tables through a mock engine; emitted DDL interpreted by a referenced-table-enforcing backend model; ordering kernel decided symbolically by C19's bounded model checking",
         text="For every FK graph over 2 tables with {no FK, FK, use_alter FK} per ordered pair incl. self references and every graph over 3 tables with {no FK, FK} (thorough: 3 tables with all three kinds = 19683 graphs, part of 4 tables), the DDL emitted by create_all creates every table and every constraint exactly once without ever referencing a table that does not exist yet, use_alter constraints are emitted as ALTER, drop_all removes everything without dropping a table that is still referenced, and sorted_tables lists referenced tables first for every acyclic dependency.",
